@@ -15,7 +15,7 @@ repo=sys.argv[1]
 V=sys.argv[2]
 H=V+'/harness'
 rep={}
-for pkg in ['project','ksim','storex','pgemu','frontx','routex','pollx','queuex','procx']:
+for pkg in ['project','ksim','storex','pgemu','frontx','routex','pollx','queuex','procx','pushx']:
     d=os.path.join(H,pkg)
     if not os.path.isdir(d): continue
     for f in os.listdir(d):
